@@ -1,1 +1,623 @@
-//! C19 harnesses (Engine K)
+//! C19 — pools exist only with in-bound parameters and over supported token mints.
+//!
+//! Part 1: every state method that writes a bounded field (all arguments symbolic).
+//! Part 2: handler-level spot checks on real Anchor account structs (thorough tier).
+//! Part 3: Token-2022 mint admission (`get_token_extension_types`, `is_supported_token_mint`).
+//! Part 4: `is_token_badge_initialized`.
+use crate::common::*;
+use anchor_lang::prelude::*;
+use anchor_lang::Discriminator;
+use ::whirlpool::errors::ErrorCode;
+use ::whirlpool::math::{MAX_FEE_RATE, MAX_PROTOCOL_FEE_RATE, MAX_SQRT_PRICE_X64, MIN_SQRT_PRICE_X64};
+use ::whirlpool::state::*;
+
+// ------------------------------------------------------------------------------------------------
+// reference predicates, written from the property text (not from the code)
+
+/// "fee rate is at most 6%" (hundredths of a basis point) / "protocol fee rate at most 25% of fees" (basis points)
+const REF_MAX_FEE_RATE: u16 = 60_000;
+const REF_MAX_PROTOCOL_FEE_RATE: u16 = 2_500;
+/// protocol price bounds (sqrt-price at MIN_TICK_INDEX / MAX_TICK_INDEX, Q64.64)
+const REF_MIN_SQRT_PRICE: u128 = 4295048016;
+const REF_MAX_SQRT_PRICE: u128 = 79226673515401279992447579055;
+
+/// canonical mint order = strict lexicographic order of the 32 key bytes
+fn ref_key_lt(a: &[u8; 32], b: &[u8; 32]) -> bool {
+    let mut i = 0;
+    while i < 32 {
+        if a[i] != b[i] {
+            return a[i] < b[i];
+        }
+        i += 1;
+    }
+    false
+}
+
+/// the bounded pool parameters of the property statement
+fn ref_pool_bounds(w: &Whirlpool) -> bool {
+    w.fee_rate <= REF_MAX_FEE_RATE
+        && w.protocol_fee_rate <= REF_MAX_PROTOCOL_FEE_RATE
+        && w.sqrt_price >= REF_MIN_SQRT_PRICE
+        && w.sqrt_price <= REF_MAX_SQRT_PRICE
+        && w.tick_spacing != 0
+        && ref_key_lt(&w.token_mint_a.to_bytes(), &w.token_mint_b.to_bytes())
+}
+
+/// "periods ordered, factors below their denominators, group size dividing tick spacing,
+/// accumulator times group size within 32 bits"
+#[allow(clippy::too_many_arguments)]
+fn ref_adaptive_constants_ok(
+    tick_spacing: u16,
+    filter_period: u16,
+    decay_period: u16,
+    reduction_factor: u16,
+    adaptive_fee_control_factor: u32,
+    max_volatility_accumulator: u32,
+    tick_group_size: u16,
+) -> bool {
+    filter_period < decay_period
+        && reduction_factor < 10_000
+        && adaptive_fee_control_factor < 100_000
+        && tick_group_size != 0
+        && tick_spacing % tick_group_size == 0
+        && (max_volatility_accumulator as u64) * (tick_group_size as u64) <= u32::MAX as u64
+}
+
+// ------------------------------------------------------------------------------------------------
+// helpers
+
+fn any_key() -> Pubkey {
+    Pubkey::new_from_array(kani::any())
+}
+
+/// serialized WhirlpoolsConfig with symbolic authorities / default protocol fee rate / flags
+fn any_config_bytes() -> [u8; WhirlpoolsConfig::LEN] {
+    let mut d = [0u8; WhirlpoolsConfig::LEN];
+    d[..8].copy_from_slice(WhirlpoolsConfig::DISCRIMINATOR);
+    let a: [u8; 32] = kani::any();
+    d[8..40].copy_from_slice(&a);
+    let b: [u8; 32] = kani::any();
+    d[40..72].copy_from_slice(&b);
+    let c: [u8; 32] = kani::any();
+    d[72..104].copy_from_slice(&c);
+    let r: [u8; 4] = kani::any();
+    d[104..108].copy_from_slice(&r);
+    d
+}
+
+/// a pool in a state satisfying the property's bounds, everything else unconstrained where it matters
+fn any_bounded_pool() -> Whirlpool {
+    let mut w = Whirlpool::default();
+    w.whirlpools_config = any_key();
+    w.tick_spacing = kani::any();
+    w.fee_tier_index_seed = kani::any();
+    w.fee_rate = kani::any();
+    w.protocol_fee_rate = kani::any();
+    w.liquidity = kani::any();
+    w.sqrt_price = kani::any();
+    w.tick_current_index = kani::any();
+    w.token_mint_a = any_key();
+    w.token_mint_b = any_key();
+    w
+}
+
+fn same_other_pool_fields(a: &Whirlpool, b: &Whirlpool) -> bool {
+    a.whirlpools_config == b.whirlpools_config
+        && a.tick_spacing == b.tick_spacing
+        && a.fee_tier_index_seed == b.fee_tier_index_seed
+        && a.liquidity == b.liquidity
+        && a.sqrt_price == b.sqrt_price
+        && a.tick_current_index == b.tick_current_index
+        && a.token_mint_a == b.token_mint_a
+        && a.token_mint_b == b.token_mint_b
+}
+
+// ================================================================================================
+// Part 1 — state methods
+
+/// Whirlpool::initialize over all arguments and any config: Ok ⇔ (mint_a < mint_b ∧ price in bounds ∧ fee ≤ 60 000 ∧
+/// config protocol fee ≤ 2 500); Ok ⇒ post-state satisfies every pool bound of the property and stores the arguments;
+/// Err carries the documented code in the documented priority. `tick_spacing == 0` is `unreachable!()` in the code
+/// (a panic aborts the transaction); the only callers pass FeeTier/AdaptiveFeeTier.tick_spacing, which the tier
+/// harnesses below prove non-zero, so it is assumed here. tick_index_from_sqrt_price = memo stub (contract T2).
+// @verif prop=C19 tier=quick timeout=300
+#[kani::proof]
+#[kani::unwind(34)]
+#[kani::stub(alloc::fmt::format, stub_format)]
+#[kani::stub(<anchor_lang::error::Error as core::convert::From<::whirlpool::errors::ErrorCode>>::from, stub_err_from_code)]
+#[kani::stub(<anchor_lang::error::Error as core::convert::From<anchor_lang::error::ErrorCode>>::from, stub_err_from_anchor_code)]
+#[kani::stub(::whirlpool::math::tick_math::tick_index_from_sqrt_price, memo::stub_tick_index_from_sqrt_price)]
+#[kani::stub(::whirlpool::math::tick_math::sqrt_price_from_tick_index, memo::stub_sqrt_price_from_tick_index)]
+fn c19_whirlpool_initialize() {
+    let program_id = ::whirlpool::ID;
+    let cfg_key = any_key();
+    let mut cfg_l = 1u64;
+    let mut cfg_data = any_config_bytes();
+    let cfg_default_pfr = u16::from_le_bytes([cfg_data[104], cfg_data[105]]);
+    let mut w = any_bounded_pool(); // pre-state arbitrary (the handlers pass a zeroed `init` account)
+    let fee_tier_index: u16 = kani::any();
+    let bump: u8 = kani::any();
+    let tick_spacing: u16 = kani::any();
+    kani::assume(tick_spacing != 0);
+    let sqrt_price: u128 = kani::any();
+    let default_fee_rate: u16 = kani::any();
+    let mint_a: [u8; 32] = kani::any();
+    let mint_b: [u8; 32] = kani::any();
+    let vault_a = any_key();
+    let vault_b = any_key();
+    let flags = WhirlpoolControlFlags::from_bits_truncate(kani::any());
+
+    let cfg_ai = AccountInfo::new(&cfg_key, false, false, &mut cfg_l, &mut cfg_data, &program_id, false, 0);
+    let cfg: Account<WhirlpoolsConfig> = Account::try_from(&cfg_ai).unwrap();
+    let r = w.initialize(
+        &cfg,
+        fee_tier_index,
+        bump,
+        tick_spacing,
+        sqrt_price,
+        default_fee_rate,
+        Pubkey::new_from_array(mint_a),
+        vault_a,
+        Pubkey::new_from_array(mint_b),
+        vault_b,
+        flags,
+    );
+    let order_ok = ref_key_lt(&mint_a, &mint_b);
+    let price_ok = sqrt_price >= REF_MIN_SQRT_PRICE && sqrt_price <= REF_MAX_SQRT_PRICE;
+    let fee_ok = default_fee_rate <= REF_MAX_FEE_RATE;
+    let pfee_ok = cfg_default_pfr <= REF_MAX_PROTOCOL_FEE_RATE;
+    kani::cover!(r.is_ok(), "initialize ok");
+    kani::cover!(r.is_ok() && sqrt_price == REF_MIN_SQRT_PRICE, "ok at min price");
+    kani::cover!(r.is_ok() && sqrt_price == REF_MAX_SQRT_PRICE && default_fee_rate == 60_000, "ok at max price, max fee");
+    kani::cover!(r.is_err() && order_ok && price_ok && fee_ok, "protocol fee error reachable");
+    match &r {
+        Ok(()) => {
+            assert!(order_ok && price_ok && fee_ok && pfee_ok);
+            assert!(ref_pool_bounds(&w));
+            assert!(w.fee_rate == default_fee_rate);
+            assert!(w.protocol_fee_rate == cfg_default_pfr);
+            assert!(w.sqrt_price == sqrt_price);
+            assert!(w.tick_spacing == tick_spacing);
+            assert!(w.token_mint_a.to_bytes() == mint_a && w.token_mint_b.to_bytes() == mint_b);
+            assert!(w.whirlpools_config == cfg_key);
+            assert!(w.liquidity == 0);
+            assert!(w.tick_current_index >= MIN_TICK_INDEX && w.tick_current_index <= MAX_TICK_INDEX);
+            assert!(w.fee_tier_index_seed == fee_tier_index.to_le_bytes());
+        }
+        Err(e) => {
+            let c = acode(e);
+            if !order_ok {
+                assert!(c == ecode(ErrorCode::InvalidTokenMintOrder));
+            } else if !price_ok {
+                assert!(c == ecode(ErrorCode::SqrtPriceOutOfBounds));
+            } else if !fee_ok {
+                assert!(c == ecode(ErrorCode::FeeRateMaxExceeded));
+            } else {
+                assert!(!pfee_ok);
+                assert!(c == ecode(ErrorCode::ProtocolFeeRateMaxExceeded));
+            }
+        }
+    }
+    core::mem::forget(r);
+}
+
+/// Whirlpool::update_fee_rate / update_protocol_fee_rate, inductive form: from any pool (bounded or not) and any
+/// argument: Ok ⇔ argument within its bound; Ok ⇒ field == argument; Err ⇒ documented code and the pool is unchanged;
+/// neither touches any other bounded field; hence pool bounds before ⇒ pool bounds after.
+// @verif prop=C19 tier=quick timeout=300
+#[kani::proof]
+#[kani::unwind(34)]
+#[kani::stub(alloc::fmt::format, stub_format)]
+#[kani::stub(<anchor_lang::error::Error as core::convert::From<::whirlpool::errors::ErrorCode>>::from, stub_err_from_code)]
+fn c19_whirlpool_fee_setters() {
+    let mut w = any_bounded_pool();
+    let before_bounds = ref_pool_bounds(&w);
+    let w0 = w.clone();
+    let x: u16 = kani::any();
+    let y: u16 = kani::any();
+    let r1 = w.update_fee_rate(x);
+    kani::cover!(r1.is_ok() && x == 60_000, "max fee accepted");
+    kani::cover!(r1.is_err(), "fee rejected");
+    match &r1 {
+        Ok(()) => assert!(x <= REF_MAX_FEE_RATE && w.fee_rate == x),
+        Err(e) => assert!(x > REF_MAX_FEE_RATE && acode(e) == ecode(ErrorCode::FeeRateMaxExceeded) && w.fee_rate == w0.fee_rate),
+    }
+    assert!(w.protocol_fee_rate == w0.protocol_fee_rate && same_other_pool_fields(&w, &w0));
+    let w1 = w.clone();
+    let r2 = w.update_protocol_fee_rate(y);
+    kani::cover!(r2.is_ok() && y == 2_500, "max protocol fee accepted");
+    kani::cover!(r2.is_err(), "protocol fee rejected");
+    match &r2 {
+        Ok(()) => assert!(y <= REF_MAX_PROTOCOL_FEE_RATE && w.protocol_fee_rate == y),
+        Err(e) => assert!(
+            y > REF_MAX_PROTOCOL_FEE_RATE
+                && acode(e) == ecode(ErrorCode::ProtocolFeeRateMaxExceeded)
+                && w.protocol_fee_rate == w1.protocol_fee_rate
+        ),
+    }
+    assert!(w.fee_rate == w1.fee_rate && same_other_pool_fields(&w, &w0));
+    if before_bounds {
+        assert!(ref_pool_bounds(&w));
+    }
+    core::mem::forget(r1);
+    core::mem::forget(r2);
+}
+
+/// WhirlpoolsConfig::initialize / update_default_protocol_fee_rate: Ok ⇔ rate ≤ 2 500, Ok ⇒ stored; the setter's Err
+/// leaves the config unchanged; authority setters and feature flags never touch the rate (bound before ⇒ bound after).
+// @verif prop=C19 tier=quick timeout=300
+#[kani::proof]
+#[kani::unwind(34)]
+#[kani::stub(alloc::fmt::format, stub_format)]
+#[kani::stub(<anchor_lang::error::Error as core::convert::From<::whirlpool::errors::ErrorCode>>::from, stub_err_from_code)]
+fn c19_config_writers() {
+    let mut c = WhirlpoolsConfig {
+        fee_authority: any_key(),
+        collect_protocol_fees_authority: any_key(),
+        reward_emissions_super_authority: any_key(),
+        default_protocol_fee_rate: kani::any(),
+        feature_flags: kani::any(),
+    };
+    let init_rate: u16 = kani::any();
+    let (a1, a2, a3) = (any_key(), any_key(), any_key());
+    let set_rate: u16 = kani::any();
+    let flag_on: bool = kani::any();
+    let k = any_key();
+    let which: u8 = kani::any();
+    let step_rate: u16 = kani::any();
+
+    let r0 = c.initialize(a1, a2, a3, init_rate);
+    kani::cover!(r0.is_ok() && init_rate == 2_500, "config init at max");
+    kani::cover!(r0.is_err(), "config init rejected");
+    match &r0 {
+        Ok(()) => assert!(init_rate <= REF_MAX_PROTOCOL_FEE_RATE && c.default_protocol_fee_rate == init_rate && c.fee_authority == a1),
+        Err(e) => assert!(init_rate > REF_MAX_PROTOCOL_FEE_RATE && acode(e) == ecode(ErrorCode::ProtocolFeeRateMaxExceeded)),
+    }
+    // inductive step from an arbitrary bounded config
+    c.default_protocol_fee_rate = step_rate;
+    kani::assume(c.default_protocol_fee_rate <= REF_MAX_PROTOCOL_FEE_RATE);
+    let before = c.default_protocol_fee_rate;
+    let r1 = c.update_default_protocol_fee_rate(set_rate);
+    kani::cover!(r1.is_ok() && set_rate == 2_500, "config set at max");
+    kani::cover!(r1.is_err(), "config set rejected");
+    match &r1 {
+        Ok(()) => assert!(set_rate <= REF_MAX_PROTOCOL_FEE_RATE && c.default_protocol_fee_rate == set_rate),
+        Err(e) => assert!(
+            set_rate > REF_MAX_PROTOCOL_FEE_RATE
+                && acode(e) == ecode(ErrorCode::ProtocolFeeRateMaxExceeded)
+                && c.default_protocol_fee_rate == before
+        ),
+    }
+    let mid = c.default_protocol_fee_rate;
+    match which % 4 {
+        0 => c.update_fee_authority(k),
+        1 => c.update_collect_protocol_fees_authority(k),
+        2 => c.update_reward_emissions_super_authority(k),
+        _ => {
+            let r = c.update_feature_flags(ConfigFeatureFlag::TokenBadge(flag_on));
+            assert!(r.is_ok());
+        }
+    }
+    assert!(c.default_protocol_fee_rate == mid && mid <= REF_MAX_PROTOCOL_FEE_RATE);
+    core::mem::forget(r0);
+    core::mem::forget(r1);
+}
+
+/// FeeTier::initialize / update_default_fee_rate: Ok ⇔ tick_spacing ≠ 0 ∧ rate ≤ 60 000 (initialize), rate ≤ 60 000
+/// (setter); Ok ⇒ stored values, tier bound to the config key; setter Err ⇒ tier unchanged; tick_spacing never rewritten.
+// @verif prop=C19 tier=quick timeout=300
+#[kani::proof]
+#[kani::unwind(34)]
+#[kani::stub(alloc::fmt::format, stub_format)]
+#[kani::stub(<anchor_lang::error::Error as core::convert::From<::whirlpool::errors::ErrorCode>>::from, stub_err_from_code)]
+#[kani::stub(<anchor_lang::error::Error as core::convert::From<anchor_lang::error::ErrorCode>>::from, stub_err_from_anchor_code)]
+fn c19_fee_tier_writers() {
+    let program_id = ::whirlpool::ID;
+    let cfg_key = any_key();
+    let mut cfg_l = 1u64;
+    let mut cfg_data = any_config_bytes();
+    let mut t = FeeTier { whirlpools_config: any_key(), tick_spacing: kani::any(), default_fee_rate: kani::any() };
+    let ts: u16 = kani::any();
+    let rate: u16 = kani::any();
+    let rate2: u16 = kani::any();
+    let step_ts: u16 = kani::any();
+    let step_rate: u16 = kani::any();
+    let cfg_ai = AccountInfo::new(&cfg_key, false, false, &mut cfg_l, &mut cfg_data, &program_id, false, 0);
+    let cfg: Account<WhirlpoolsConfig> = Account::try_from(&cfg_ai).unwrap();
+
+    let r0 = t.initialize(&cfg, ts, rate);
+    kani::cover!(r0.is_ok() && rate == 60_000 && ts == 1, "tier init at max fee");
+    kani::cover!(r0.is_err() && ts != 0, "tier init fee rejected");
+    match &r0 {
+        Ok(()) => assert!(ts != 0 && rate <= REF_MAX_FEE_RATE && t.tick_spacing == ts && t.default_fee_rate == rate && t.whirlpools_config == cfg_key),
+        Err(e) => {
+            if ts == 0 {
+                assert!(acode(e) == ecode(ErrorCode::InvalidTickSpacing));
+            } else {
+                assert!(rate > REF_MAX_FEE_RATE && acode(e) == ecode(ErrorCode::FeeRateMaxExceeded));
+            }
+        }
+    }
+    // inductive step from an arbitrary bounded tier
+    t.tick_spacing = step_ts;
+    t.default_fee_rate = step_rate;
+    kani::assume(t.tick_spacing != 0 && t.default_fee_rate <= REF_MAX_FEE_RATE);
+    let (ts0, f0) = (t.tick_spacing, t.default_fee_rate);
+    let r1 = t.update_default_fee_rate(rate2);
+    kani::cover!(r1.is_ok() && rate2 == 60_000, "tier set at max");
+    kani::cover!(r1.is_err(), "tier set rejected");
+    match &r1 {
+        Ok(()) => assert!(rate2 <= REF_MAX_FEE_RATE && t.default_fee_rate == rate2),
+        Err(e) => assert!(rate2 > REF_MAX_FEE_RATE && acode(e) == ecode(ErrorCode::FeeRateMaxExceeded) && t.default_fee_rate == f0),
+    }
+    assert!(t.tick_spacing == ts0 && t.default_fee_rate <= REF_MAX_FEE_RATE);
+    core::mem::forget(r0);
+    core::mem::forget(r1);
+}
+
+// The adaptive-fee constants are decided compositionally, because two copies of a 16-bit remainder by a symbolic
+// divisor (code + reference) do not close under SAT (> 10 min) while z3's bit-vector theory shares the term (9 s):
+//   (V)  the real `validate_constants(args)` ⇒ the validity rules of the property text   [c19_validate_constants_rules, z3]
+//   (W)  every writer stores constants only after `validate_constants(self.tick_spacing, exactly those constants)`
+//        returned true — in the writer harnesses `validate_constants` is an uninterpreted recording stub.
+mod vc {
+    pub type Args = (u16, u16, u16, u16, u32, u32, u16, u16);
+    pub static mut CALLS: u8 = 0;
+    pub static mut ARGS: Args = (0, 0, 0, 0, 0, 0, 0, 0);
+    pub static mut RET: bool = false;
+    /// uninterpreted `AdaptiveFeeConstants::validate_constants`: arbitrary verdict, call recorded
+    #[allow(clippy::too_many_arguments)]
+    pub fn stub_validate_constants(ts: u16, fp: u16, dp: u16, rf: u16, cf: u32, mva: u32, tgs: u16, mst: u16) -> bool {
+        let b: bool = kani::any();
+        unsafe {
+            CALLS += 1;
+            ARGS = (ts, fp, dp, rf, cf, mva, tgs, mst);
+            RET = b;
+        }
+        b
+    }
+    pub fn calls() -> u8 {
+        unsafe { CALLS }
+    }
+    pub fn args() -> Args {
+        unsafe { ARGS }
+    }
+    pub fn ret() -> bool {
+        unsafe { RET }
+    }
+}
+
+/// (V) the real AdaptiveFeeConstants::validate_constants on all 8 arguments: true ⇒ filter_period < decay_period,
+/// reduction_factor < 10 000, adaptive_fee_control_factor < 100 000, tick_group_size ≠ 0 divides tick_spacing,
+/// max_volatility_accumulator × tick_group_size ≤ u32::MAX (reference predicate written from the property text);
+/// additionally (code rule beyond the text) filter_period ≥ 1, tick_spacing ≠ 0 and 1 ≤ major_swap_threshold ≤ 88·spacing.
+// @verif prop=C19 tier=quick timeout=300
+#[kani::proof]
+#[kani::solver(z3)]
+fn c19_validate_constants_rules() {
+    let ts: u16 = kani::any();
+    let fp: u16 = kani::any();
+    let dp: u16 = kani::any();
+    let rf: u16 = kani::any();
+    let cf: u32 = kani::any();
+    let mva: u32 = kani::any();
+    let tgs: u16 = kani::any();
+    let mst: u16 = kani::any();
+    let v = AdaptiveFeeConstants::validate_constants(ts, fp, dp, rf, cf, mva, tgs, mst);
+    kani::cover!(v, "some constants are valid");
+    kani::cover!(v && tgs == ts && rf == 9_999 && cf == 99_999 && fp + 1 == dp, "valid at the edges");
+    kani::cover!(v && tgs > 1 && tgs < ts, "valid with a proper divisor");
+    if v {
+        assert!(ref_adaptive_constants_ok(ts, fp, dp, rf, cf, mva, tgs));
+        assert!(fp >= 1 && ts != 0 && mst >= 1 && (mst as u32) <= ts as u32 * 88);
+    }
+}
+
+type CTuple = (u16, u16, u16, u32, u32, u16, u16);
+fn tier_tuple(t: &AdaptiveFeeTier) -> CTuple {
+    (t.filter_period, t.decay_period, t.reduction_factor, t.adaptive_fee_control_factor, t.max_volatility_accumulator, t.tick_group_size, t.major_swap_threshold_ticks)
+}
+fn const_tuple(c: &AdaptiveFeeConstants) -> CTuple {
+    (c.filter_period, c.decay_period, c.reduction_factor, c.adaptive_fee_control_factor, c.max_volatility_accumulator, c.tick_group_size, c.major_swap_threshold_ticks)
+}
+fn with_ts(ts: u16, c: CTuple) -> vc::Args {
+    (ts, c.0, c.1, c.2, c.3, c.4, c.5, c.6)
+}
+
+fn any_adaptive_tier() -> AdaptiveFeeTier {
+    AdaptiveFeeTier {
+        whirlpools_config: any_key(),
+        fee_tier_index: kani::any(),
+        tick_spacing: kani::any(),
+        initialize_pool_authority: any_key(),
+        delegated_fee_authority: any_key(),
+        default_base_fee_rate: kani::any(),
+        filter_period: kani::any(),
+        decay_period: kani::any(),
+        reduction_factor: kani::any(),
+        adaptive_fee_control_factor: kani::any(),
+        max_volatility_accumulator: kani::any(),
+        tick_group_size: kani::any(),
+        major_swap_threshold_ticks: kani::any(),
+    }
+}
+
+/// (W) AdaptiveFeeTier::initialize over all arguments: Ok ⇔ fee_tier_index ≠ tick_spacing ∧ tick_spacing ≠ 0 ∧ base fee
+/// ≤ 60 000 ∧ validate_constants(tick_spacing, the 7 constants) returned true; Ok ⇒ all arguments stored; otherwise
+/// the documented Err in the documented priority. validate_constants = recording stub (see (V)).
+// @verif prop=C19 tier=quick timeout=300
+#[kani::proof]
+#[kani::unwind(34)]
+#[kani::stub(alloc::fmt::format, stub_format)]
+#[kani::stub(<anchor_lang::error::Error as core::convert::From<::whirlpool::errors::ErrorCode>>::from, stub_err_from_code)]
+#[kani::stub(<anchor_lang::error::Error as core::convert::From<anchor_lang::error::ErrorCode>>::from, stub_err_from_anchor_code)]
+#[kani::stub(::whirlpool::state::oracle::AdaptiveFeeConstants::validate_constants, vc::stub_validate_constants)]
+fn c19_adaptive_tier_initialize() {
+    let program_id = ::whirlpool::ID;
+    let cfg_key = any_key();
+    let mut cfg_l = 1u64;
+    let mut cfg_data = any_config_bytes();
+    let mut t = any_adaptive_tier();
+    let idx: u16 = kani::any();
+    let ts: u16 = kani::any();
+    let (ipa, dfa) = (any_key(), any_key());
+    let rate: u16 = kani::any();
+    let c: CTuple = (kani::any(), kani::any(), kani::any(), kani::any(), kani::any(), kani::any(), kani::any());
+    let cfg_ai = AccountInfo::new(&cfg_key, false, false, &mut cfg_l, &mut cfg_data, &program_id, false, 0);
+    let cfg: Account<WhirlpoolsConfig> = Account::try_from(&cfg_ai).unwrap();
+
+    let r = t.initialize(&cfg, idx, ts, ipa, dfa, rate, c.0, c.1, c.2, c.3, c.4, c.5, c.6);
+    kani::cover!(r.is_ok(), "adaptive tier init ok");
+    kani::cover!(r.is_ok() && rate == 60_000, "adaptive tier init at max base fee");
+    kani::cover!(r.is_err() && idx != ts && ts != 0 && rate <= 60_000, "constants rejected");
+    match &r {
+        Ok(()) => {
+            assert!(ts != 0 && idx != ts && rate <= REF_MAX_FEE_RATE);
+            assert!(vc::calls() == 1 && vc::ret() && vc::args() == with_ts(ts, c));
+            assert!(t.tick_spacing == ts && t.fee_tier_index == idx && t.default_base_fee_rate == rate);
+            assert!(t.whirlpools_config == cfg_key && t.initialize_pool_authority == ipa && t.delegated_fee_authority == dfa);
+            assert!(tier_tuple(&t) == c);
+        }
+        Err(e) => {
+            let code = acode(e);
+            if idx == ts {
+                assert!(code == ecode(ErrorCode::InvalidFeeTierIndex));
+            } else if ts == 0 {
+                assert!(code == ecode(ErrorCode::InvalidTickSpacing));
+            } else if rate > REF_MAX_FEE_RATE {
+                assert!(code == ecode(ErrorCode::FeeRateMaxExceeded));
+            } else {
+                assert!(code == ecode(ErrorCode::InvalidAdaptiveFeeConstants));
+                assert!(vc::calls() == 1 && !vc::ret() && vc::args() == with_ts(ts, c));
+            }
+        }
+    }
+    core::mem::forget(r);
+}
+
+/// (W) AdaptiveFeeTier setters, inductive form: from any tier, update_default_base_fee_rate: Ok ⇔ rate ≤ 60 000, Err ⇒
+/// unchanged; update_adaptive_fee_constants: stores exactly the arguments iff validate_constants(self.tick_spacing,
+/// arguments) returned true, otherwise InvalidAdaptiveFeeConstants and constants unchanged; tick_spacing is never
+/// rewritten; authority setters touch neither. Hence (spacing ≠ 0 ∧ fee bound ∧ constants validated for this spacing)
+/// is preserved. validate_constants = recording stub (see (V)).
+// @verif prop=C19 tier=quick timeout=300
+#[kani::proof]
+#[kani::unwind(34)]
+#[kani::stub(alloc::fmt::format, stub_format)]
+#[kani::stub(<anchor_lang::error::Error as core::convert::From<::whirlpool::errors::ErrorCode>>::from, stub_err_from_code)]
+#[kani::stub(::whirlpool::state::oracle::AdaptiveFeeConstants::validate_constants, vc::stub_validate_constants)]
+fn c19_adaptive_tier_setters() {
+    let mut t = any_adaptive_tier();
+    let rate: u16 = kani::any();
+    let c: CTuple = (kani::any(), kani::any(), kani::any(), kani::any(), kani::any(), kani::any(), kani::any());
+    let k = any_key();
+    let which: bool = kani::any();
+    let ts0 = t.tick_spacing;
+    let f0 = t.default_base_fee_rate;
+    let old = tier_tuple(&t);
+
+    let r1 = t.update_default_base_fee_rate(rate);
+    kani::cover!(r1.is_ok() && rate == 60_000, "base fee at max");
+    kani::cover!(r1.is_err(), "base fee rejected");
+    match &r1 {
+        Ok(()) => assert!(rate <= REF_MAX_FEE_RATE && t.default_base_fee_rate == rate),
+        Err(e) => assert!(rate > REF_MAX_FEE_RATE && acode(e) == ecode(ErrorCode::FeeRateMaxExceeded) && t.default_base_fee_rate == f0),
+    }
+    assert!(tier_tuple(&t) == old && t.tick_spacing == ts0 && vc::calls() == 0);
+    let f1 = t.default_base_fee_rate;
+
+    let r2 = t.update_adaptive_fee_constants(c.0, c.1, c.2, c.3, c.4, c.5, c.6);
+    kani::cover!(r2.is_ok(), "constants accepted");
+    kani::cover!(r2.is_err(), "constants rejected");
+    assert!(vc::calls() == 1 && vc::args() == with_ts(ts0, c));
+    match &r2 {
+        Ok(()) => assert!(vc::ret() && tier_tuple(&t) == c),
+        Err(e) => assert!(!vc::ret() && acode(e) == ecode(ErrorCode::InvalidAdaptiveFeeConstants) && tier_tuple(&t) == old),
+    }
+    let mid = tier_tuple(&t);
+    if which {
+        t.update_initialize_pool_authority(k);
+    } else {
+        t.update_delegated_fee_authority(k);
+    }
+    assert!(tier_tuple(&t) == mid && t.tick_spacing == ts0 && t.default_base_fee_rate == f1);
+    if f0 <= REF_MAX_FEE_RATE {
+        assert!(t.default_base_fee_rate <= REF_MAX_FEE_RATE);
+    }
+    core::mem::forget(r1);
+    core::mem::forget(r2);
+}
+
+fn any_constants() -> AdaptiveFeeConstants {
+    AdaptiveFeeConstants {
+        filter_period: kani::any(),
+        decay_period: kani::any(),
+        reduction_factor: kani::any(),
+        adaptive_fee_control_factor: kani::any(),
+        max_volatility_accumulator: kani::any(),
+        tick_group_size: kani::any(),
+        major_swap_threshold_ticks: kani::any(),
+        reserved: [0u8; 16],
+    }
+}
+
+/// (W) Oracle::initialize and Oracle::initialize_adaptive_fee_constants (the writer behind set_adaptive_fee_constants):
+/// constants are stored iff validate_constants(tick_spacing argument, those constants) returned true; otherwise
+/// InvalidAdaptiveFeeConstants and the stored constants are unchanged; initialize also resets the variables and
+/// binds the pool key. validate_constants = recording stub (see (V)). That the tick_spacing argument is the pool's is
+/// checked on the handlers (c19_handler_set_adaptive_fee_constants; initialize_pool_with_adaptive_fee by reading: both
+/// Whirlpool::initialize and Oracle::initialize receive adaptive_fee_tier.tick_spacing).
+// @verif prop=C19 tier=quick timeout=300
+#[kani::proof]
+#[kani::unwind(34)]
+#[kani::stub(alloc::fmt::format, stub_format)]
+#[kani::stub(<anchor_lang::error::Error as core::convert::From<::whirlpool::errors::ErrorCode>>::from, stub_err_from_code)]
+#[kani::stub(::whirlpool::state::oracle::AdaptiveFeeConstants::validate_constants, vc::stub_validate_constants)]
+fn c19_oracle_writers() {
+    let mut o = Oracle::default();
+    o.adaptive_fee_constants = any_constants();
+    o.adaptive_fee_variables.volatility_accumulator = kani::any();
+    let pool = any_key();
+    let tet: Option<u64> = kani::any();
+    let ts: u16 = kani::any();
+    let ts2: u16 = kani::any();
+    let c1 = any_constants();
+    let c2 = any_constants();
+    let before0 = o.adaptive_fee_constants;
+
+    let r0 = o.initialize(
+        pool,
+        tet,
+        ts,
+        c1.filter_period,
+        c1.decay_period,
+        c1.reduction_factor,
+        c1.adaptive_fee_control_factor,
+        c1.max_volatility_accumulator,
+        c1.tick_group_size,
+        c1.major_swap_threshold_ticks,
+    );
+    kani::cover!(r0.is_ok(), "oracle init ok");
+    kani::cover!(r0.is_err(), "oracle init rejected");
+    assert!(vc::calls() == 1 && vc::args() == with_ts(ts, const_tuple(&c1)));
+    match &r0 {
+        Ok(()) => {
+            assert!(vc::ret());
+            assert!(o.adaptive_fee_constants == c1);
+            assert!(o.adaptive_fee_variables == AdaptiveFeeVariables::default());
+            assert!({ o.whirlpool } == pool);
+        }
+        Err(e) => assert!(!vc::ret() && acode(e) == ecode(ErrorCode::InvalidAdaptiveFeeConstants) && o.adaptive_fee_constants == before0),
+    }
+    let before = o.adaptive_fee_constants;
+    let r1 = o.initialize_adaptive_fee_constants(c2, ts2);
+    kani::cover!(r1.is_ok(), "oracle constants accepted");
+    kani::cover!(r1.is_err(), "oracle constants rejected");
+    assert!(vc::calls() == 2 && vc::args() == with_ts(ts2, const_tuple(&c2)));
+    match &r1 {
+        Ok(()) => assert!(vc::ret() && o.adaptive_fee_constants == c2),
+        Err(e) => assert!(!vc::ret() && acode(e) == ecode(ErrorCode::InvalidAdaptiveFeeConstants) && o.adaptive_fee_constants == before),
+    }
+    core::mem::forget(r0);
+    core::mem::forget(r1);
+}
